@@ -146,7 +146,8 @@ fn vq_c09_pn_map_remove_one() {
     kani::cover!(true, "reach:end");
 }
 
-//@ harness props=C09,C16 tier=thorough level=bounded timeout=3000 bound="K<=3 entries, ring capacity 8 with the oldest entry in slot 6 (wrap-around), one operation from an arbitrary well-formed state; removed range any sub-range of packet numbers"
+// NOT REGISTERED (timeout 1800 s; see contracts/STRENGTH-c09c10.md):
+//@-unregistered harness props=C09,C16 tier=thorough level=bounded timeout=3000 bound="K<=3 entries, ring capacity 8 with the oldest entry in slot 6 (wrap-around), one operation from an arbitrary well-formed state; removed range any sub-range of packet numbers"
 //@ fn packet::number::Map::remove_range
 //@ fn packet::number::RemoveIter::next
 #[kani::proof]
@@ -201,7 +202,8 @@ fn vq_c09_pn_map_remove_range() {
     kani::cover!(true, "reach:end");
 }
 
-//@ harness props=C09,C16 tier=thorough level=bounded timeout=3000 bound="K<=3 entries before the insert, ring capacity 8 with the oldest entry in slot 6, new packet number within the ring (gap < 8: no growth)"
+// NOT REGISTERED (CBMC exits with status 139; see contracts/STRENGTH-c09c10.md):
+//@-unregistered harness props=C09,C16 tier=thorough level=bounded timeout=3000 bound="K<=3 entries before the insert, ring capacity 8 with the oldest entry in slot 6, new packet number within the ring (gap < 8: no growth)"
 //@ fn packet::number::Map::insert
 // STATUS: undecided in every run so far -- CBMC 6.11 terminates with status 139 (SIGSEGV) after ~4-9 min on this
 // harness, with and without the ring-growth case (Map::resize: Vec::extend over mapped iter_mut slices).
